@@ -156,15 +156,16 @@ def random_cfgs(tier, base_id, algos=("T_HOO", "HCT", "VHCT"), queries=False, se
         if algo not in ("HCT", "VHCT"):
             continue
         for T in ((530,) if tier == "quick" else (530, 1040, 600)):
+            ru = 8 if algo == "VHCT" and T > 900 else None      # second moments of > 900 pulls need the coarser reward grid to stay in 31 bits
             for _ in range(50):
                 prm = draw_prm(rnd, algo)
-                t = TB.tables({"algo": algo, "n": T, "T": T, "prm": prm})
+                t = TB.tables(dict({"algo": algo, "n": T, "T": T, "prm": prm}, **({"RU": ru} if ru else {})))
                 if t is not None and not t["amb"]:
                     break
             else:
                 raise C.Machinery("no representable parameter draw")
             i += 1
-            cfgs.append({"id": i, "algo": algo, "kind": rnd.choice(["bin", "kary"]), "K": 3, "D": 1, "box": [[0.0, 1.0]], "n": T, "T": T, "prm": prm, "pattern": rnd.choice(["g01", "peak", "flat"]), "seed": rnd.randrange(1 << 30), "queries": []})
+            cfgs.append(dict({"id": i, "algo": algo, "kind": rnd.choice(["bin", "kary"]), "K": 3, "D": 1, "box": [[0.0, 1.0]], "n": T, "T": T, "prm": prm, "pattern": rnd.choice(["g01", "peak", "flat"]), "seed": rnd.randrange(1 << 30), "queries": []}, **({"RU": ru} if ru else {})))
     # a cell that is pulled more than a thousand times (small nu: thresholds far above the run length)
     if "VHCT" in algos or "HCT" in algos:
         for algo in [a for a in ("VHCT", "HCT") if a in algos][: (1 if tier == "quick" else 2)]:
